@@ -6,6 +6,21 @@ CHECKS = [
   "design_ref": "DESIGN.md section 4 C01",
   "note": "Assumes ideal signatures and trusts harness/src/layout.rs + prost; bounded to tokens of <=3/4 blocks and one adversary action; rejected states are sampled for replay (accepted ones all replayed).",
   "technique": "TLA+ spec + TLC exhaustive BFS; TLC-generated behaviours replayed on the real code"},
+ {"id": "C02", "level": "model_checking",
+  "text": "TLC enumerates every honest history of build/append/third-party append/seal (both algorithms for every key) and checks Complete/VersionMonotone on the spec; each history is executed through the real API (all Biscuit/UnverifiedBiscuit path mixes) and the produced token must be byte-identical to the concretised spec token (signing is deterministic), so every real signature is a signature by the designated key over the specification's layout; recorded random API runs are projected to abstract tokens and validated by TLC (ChainTrace.tla). Histories are a state space, so model checking + conformance is the natural level.",
+  "design_ref": "DESIGN.md section 4 C02",
+  "note": "Trusts layout.rs and raw ed25519-dalek/p256 verification used for projection; payload bytes are opaque (taken from the real builders); bounded to <=4/5 operations in TLC, <=8 in recorded runs.",
+  "technique": "TLA+ spec + TLC; spec behaviours replayed into the API (byte equality) and recorded API traces validated by TLC"},
+ {"id": "C08", "level": "model_checking",
+  "text": "TLC explores all honest histories containing seals and every adversary action applied to a sealed token (invariants SoundModuloKnown, SealedFinalModuloKnown); exported tokens are replayed on the four admission paths; every honest history is executed on the real API where each operation on each sealed token must be refused on both API paths and the sealed token must keep blocks, revocation ids and authorisation results; recorded runs are validated by TLC (refused operations must be spec-refused).",
+  "design_ref": "DESIGN.md section 4 C08",
+  "note": "Ideal signatures; authorisation equality is checked with four fixed authorizers per sealed token on the real code.",
+  "technique": "TLA+ spec + TLC; replay of TLC behaviours and TLC validation of recorded traces"},
+ {"id": "C15", "level": "model_checking",
+  "text": "Revocation-id stability and uniqueness are invariants of ChainMC.tla over all honest histories; non-malleability is checked over every adversary action that keeps a token's blocks, with an explicit second encoding for ECDSA signatures and non-canonical S for ed25519; every exported token is replayed (accepted tokens must present exactly their signature bytes as identifiers); recorded API runs are validated by TLC with ids compared at every step; identical tokens are minted with OS randomness to confirm uniqueness.",
+  "design_ref": "DESIGN.md section 4 C15",
+  "note": "Ideal signatures; the only signature-level transformations modelled are (r,s)->(r,n-s) for ECDSA and S->S+L for ed25519.",
+  "technique": "TLA+ spec + TLC; replay of TLC behaviours and TLC validation of recorded traces"},
 ]
 
 _TODO = "check not built yet in this round; will be decided with the TLA+ specification (see DESIGN.md section 4)"
